@@ -130,6 +130,19 @@ func allConfigs(wiring string, allOrders bool) []demuxCfg {
 	return out
 }
 
+func inUniverseOrder(c demuxCfg) bool {
+	pos := map[string]int{}
+	for i, u := range universe {
+		pos[u] = i
+	}
+	for i := 1; i < len(c.Entries); i++ {
+		if pos[c.Entries[i-1].Prefix] > pos[c.Entries[i].Prefix] {
+			return false
+		}
+	}
+	return true
+}
+
 // keepTwoOrders keeps, of all registration orders of a prefix set, the one in
 // universe order and its reverse (so every prefix is index 0 at least once for
 // sets of size <= 2, and first and last are swapped for size 3).
@@ -483,6 +496,7 @@ func demuxSingleSub(r *ev.Run, wiring string) {
 	done := sub.Timer()
 	defer done()
 	var outcomes ev.Set
+	smp := &sampler{max: 2}
 	type res struct{ evals, nontriv int64 }
 	results := make([]res, len(cfgs))
 	par.For(len(cfgs), func(ci int) {
@@ -516,7 +530,7 @@ func demuxSingleSub(r *ev.Run, wiring string) {
 						}
 						if ci%397 == 101 && op == "GetFromComposite" && sc == "present" && n == "a/b/c/d" && h == 0 {
 							idx, pn := cfg.route(n)
-							r.Sample(map[string]any{"sub": name, "case": c, "outcome": oc, "expected_backend": idx, "expected_patched_name": pn})
+							smp.add(r, map[string]any{"sub": name, "case": c, "outcome": oc, "expected_backend": idx, "expected_patched_name": pn})
 						}
 					}
 				}
@@ -813,9 +827,16 @@ func demuxFMSub(r *ev.Run, wiring string) {
 	// decorators): one quadruple per configuration, alternating.
 	alternate := !thorough && wiring == "config"
 	codes, faultCodes := fmWork(8, thorough)
+	redCodes, redFaultCodes := fmWork(8, false)
+	canonical := map[string]bool{}
+	for _, c := range cfgs {
+		if inUniverseOrder(c) {
+			canonical[c.String()] = true
+		}
+	}
 	space := "every asked subset S of the 8 digests x answers {nothing missing, all of S missing, exactly one digest of S missing}; faults: S in {hash 0 x non-empty name subsets, all 8}, all stored, x every non-empty set of failing backends"
 	if thorough {
-		space = "all 3^8 (not asked | asked+stored | asked+missing) assignments; faults: every assignment without a missing digest x every non-empty set of failing backends"
+		space = "all 3^8 (not asked | asked+stored | asked+missing) assignments; faults: every assignment without a missing digest x every non-empty set of failing backends (configurations registered in universe order); for the other registration orders of wiring=copy: " + space
 	}
 	per := fmt.Sprintf("%d name quadruples", len(quads))
 	if alternate {
@@ -832,8 +853,7 @@ func demuxFMSub(r *ev.Run, wiring string) {
 	}
 	n := len(cfgs) * nq
 	results := make([]res, n)
-	var smu sync.Mutex
-	sampled := 0
+	smp := &sampler{max: ev.Pick(r, 1, 1)}
 	par.For(n, func(k int) {
 		cfg, quad := cfgs[k/nq], quads[k%nq]
 		if alternate {
@@ -841,6 +861,10 @@ func demuxFMSub(r *ev.Run, wiring string) {
 		}
 		p := newFMPlan(cfg, quad)
 		local := map[string]bool{}
+		codes, faultCodes := codes, faultCodes
+		if !canonical[cfg.String()] {
+			codes, faultCodes = redCodes, redFaultCodes
+		}
 		for ci, code := range codes {
 			// non-trivial: the asked digests span >= 2 backends, or known and unknown names are mixed.
 			span, spanN := 0, 0 // bit idx+1
@@ -865,12 +889,7 @@ func demuxFMSub(r *ev.Run, wiring string) {
 					r.Violate(ev.Violation{Signature: sig, Sub: name, Message: msg, Case: fmCase{cfg, quad, code, fm}})
 				}
 				if k%811 == 300 && ci == len(codes)*2/3 && fm == 0 {
-					smu.Lock()
-					if sampled < 2 {
-						sampled++
-						r.Sample(map[string]any{"sub": name, "case": fmCase{cfg, quad, code, fm}, "outcome": oc})
-					}
-					smu.Unlock()
+					smp.add(r, map[string]any{"sub": name, "case": fmCase{cfg, quad, code, fm}, "outcome": oc})
 				}
 			}
 		}
